@@ -68,6 +68,9 @@ func genCfg(rt *rapid.T) Cfg {
 	c.Naming = weighted(rt, "naming", "ext", 5, "re-anchored", 2, "re-unanchored", 2, "re-geth", 1)
 	primary := weighted(rt, "primaryKind", "direct", 5, fmtTOML, 2, fmtYAML, 2, fmtJSON, 2)
 	auto := pct(rt, 35, "autoFormat")
+	if c.Naming == "re-geth" {
+		auto = false // geth-style names carry no extension: "auto (from extension)" is not asserted there
+	}
 	switch primary {
 	case "direct":
 		if auto {
@@ -416,7 +419,10 @@ func (g *gstate) request(rt *rapid.T) {
 	if len(g.c.Acts) >= maxActs {
 		return
 	}
-	addr := g.target(rt)
+	g.requestFor(rt, g.target(rt))
+}
+
+func (g *gstate) requestFor(rt *rapid.T, addr string) {
 	a := Action{Addr: addr}
 	switch weighted(rt, "reqOp", "sign", 5, "typed", 2, "walletfile", 3) {
 	case "sign":
@@ -453,6 +459,19 @@ func (g *gstate) mutate(rt *rapid.T) {
 		}
 		g.emit(g.slotFiles(rt, s, kind), true)
 		s.kind = kind
+		// follow up on the changed slot: through the listener (wait, then ask) or a refresh, or
+		// straight away (stale list / cached key)
+		switch weighted(rt, "followUp", "none", 4, "noticed", 4, "direct", 2) {
+		case "noticed":
+			if cfg.Listener && pct(rt, 70, "viaListener") {
+				g.c.Acts = append(g.c.Acts, Action{Op: "settle"})
+			} else {
+				g.c.Acts = append(g.c.Acts, Action{Op: "refresh"})
+			}
+			g.requestFor(rt, s.addr)
+		case "direct":
+			g.requestFor(rt, s.addr)
+		}
 	case "default":
 		d := g.dflt
 		if pct(rt, 50, "changeDefault") {
